@@ -25,6 +25,9 @@ def run(ctx):
         dscommon.run_family(ctx, "C02Sel", fmt="netcdf", limit=150)
         # missing values marked the NetCDF way (a _FillValue of the file's own choosing, masked by the library)
         dscommon.run_family(ctx, "C01Quick", fmt="netcdf", variant={"nc_missing": "fill"}, limit=150)
+        # NetCDF files that list a time, lead time or station twice (the first entry counts), also BEFORE other entries: the cases and the
+        # observations of every input are still those at its own coordinates (after seed C01-i)
+        dscommon.run_family(ctx, "C02Repeat", fmt="auto", limit=200, always_nontrivial=True)
         # requests that name OTHER fields (quantiles, another score column) together with obs / fcst: every requested field in every input
         dscommon.run_family(ctx, "C01Extra", fmt="text", always_nontrivial=True)
         dscommon.run_family(ctx, "C01Extra", fmt="text", fresh=False, always_nontrivial=True)
@@ -48,6 +51,7 @@ def run(ctx):
         dscommon.run_family(ctx, "C01NoObs", fmt="text", fresh=False)
         dscommon.run_family(ctx, "C01Quick", fmt="netcdf")
         dscommon.run_family(ctx, "C02Sel", fmt="netcdf")
+        dscommon.run_family(ctx, "C02Repeat", fmt="auto", always_nontrivial=True)
         dscommon.run_family(ctx, "C01Extra", fmt="text", always_nontrivial=True)
         dscommon.run_family(ctx, "C01Extra", fmt="text", fresh=False, always_nontrivial=True)
         dscommon.run_family(ctx, "C01Close", fmt="text", always_nontrivial=True)
